@@ -7,6 +7,7 @@ specification of SkNet/Spec/Classify.lean.  Lemmas live in SkNet/Lemmas/Vote*.le
 import SkNet.Lemmas.VoteFit
 import SkNet.Lemmas.VoteChecked
 import SkNet.Lemmas.VoteTerminates
+import SkNet.Lemmas.VoteTie
 import SkNet.Lemmas.ClassifyDiffusionFit
 import SkNet.Lemmas.ClassifyReach
 import SkNet.Lemmas.ClassifyKnn
@@ -110,6 +111,27 @@ example : Vote.fit witnessGraph [-1,0,1,1,-1] { sigma := some [1,0] } 10 = some 
   intro s hs
   cases hs
   exact ⟨by decide, by decide +kernel⟩
+
+/-- ★ **vote_update, exactly** (one node).  The update of node `i` leaves every other label alone and writes:
+    the old label if `i` has no labelled neighbour; otherwise a non-negative label carried by a neighbour whose
+    total vote is maximal and — the tie rule — strictly larger than the vote of every smaller neighbour
+    label.  This determines the written label uniquely (the smallest label of maximal vote), so the kernel
+    model is a function of the specification `score` alone. -/
+theorem vote_update_node_exact (c : Csr Rat) (hw : ∀ p, 0 ≤ c.data.getD p 0) (labels : List Int) (i : Nat) :
+    ∃ r : Int, Vote.voteUpdate c labels [i] = labels.set i r ∧
+      (Spec.hasLabelledNeighbour c labels i = false → r = labels.getD i (-1)) ∧
+      (Spec.hasLabelledNeighbour c labels i = true →
+        0 ≤ r ∧ (∃ e ∈ c.row i, labels.getD e.1 (-1) = r) ∧
+        ∀ e ∈ c.row i, 0 ≤ labels.getD e.1 (-1) →
+          Spec.score c labels i (labels.getD e.1 (-1)) ≤ Spec.score c labels i r ∧
+          (labels.getD e.1 (-1) < r →
+            Spec.score c labels i (labels.getD e.1 (-1)) < Spec.score c labels i r)) :=
+  Vote.voteUpdate_single c hw labels i
+
+/-- non-vacuity: a tie (label 1 and label 3 both have total vote 1 at node 1 of an unweighted path): the
+    smaller label is written -/
+example : Vote.voteUpdate { nRow := 3, nCol := 3, indptr := #[0,1,3,4], indices := #[1,0,2,1], data := #[1,1,1,1] }
+    [3,-1,1] [1] = [3,1,1] := by decide +kernel
 
 /-- ★ **vote_update stays within its buffers** (the out-of-bounds half of F2, repaired kernel).  On a CSR
     matrix as scipy builds it (`Csr.WF`), square over the nodes, with non-negative weights and an update index
